@@ -262,11 +262,17 @@ def amplitude4(draw, event, structure=None):
     else:
         tb = {"n": r_b, "d": [leaf(leaves[0]), leaf(leaves[1])], "sf": sub_tag_b, "ls": ls_b}
         ta = {"n": r_a, "d": [tb, leaf(leaves[2])], "sf": r3tag, "ls": ls_a}
-        tree = {"n": "D0", "d": [ta, leaf(leaves[3])], "sf": None, "ls": None}
+        casc_tag = draw(st.sampled_from((None, None, None, None, "S", "P", "D")))  # explicit L of the mother's decay
+        tree = {"n": "D0", "d": [ta, leaf(leaves[3])], "sf": casc_tag, "ls": None}
         LA = "SPD".index(r3tag) if r3tag else min_L(JCLASS[classes[0]], JCLASS[classes[1]], 0)
         LB = "SPD".index(sub_tag_b) if sub_tag_b else min_L(JCLASS[classes[1]], 0, 0)
         vertices = [{"name": r_a, "ls": ls_a, "L": LA, "mass": "three"}, {"name": r_b, "ls": ls_b, "L": LB, "mass": "first"}]
-    return {"tree": tree, "key": key, "topo": topo, "leaves": leaves, "vertices": vertices}
+    enums = list(SPINFACTOR_TABLE[key])
+    if topo != "12_34" and tree["sf"] is not None:
+        # the spin factor proper stays; the form factor follows the orbital momentum written on the mother
+        L_top = "SPD".index(tree["sf"])
+        enums = enums[:1] + ([f"FF_123_4_L{L_top}"] if L_top > 0 else [])
+    return {"tree": tree, "key": key, "topo": topo, "leaves": leaves, "vertices": vertices, "enums": enums}
 
 
 def ref_permutations(leaves, event):
